@@ -40,7 +40,8 @@ package writethroughcache
 //@   requires comp != nil && trans != nil
 //@   assigns nothing
 //@ fn (*bankStage).finishBank
-//@   requires s != nil && s.cache != nil && s.cache.comp != nil && trans != nil
+//@   property C16
+//@   requires s != nil && s.cache != nil && s.cache.comp != nil && s.cache.comp.TickingComponent != nil && trans != nil
 //@   assigns nothing
 //@ fn writeTransIsReady
 //@   requires trans != nil
@@ -48,7 +49,7 @@ package writethroughcache
 
 //@ fn (*bankStage).finalizeWriteTrans
 //@   property C16
-//@   requires s != nil && s.cache != nil && s.cache.comp != nil && c16mSt(s) != nil && mem.storageFlat(c16mSt(s)) && trans != nil && s.cache.comp.spec.Log2BlockSize <= 40
+//@   requires s != nil && s.cache != nil && s.cache.comp != nil && s.cache.comp.TickingComponent != nil && c16mSt(s) != nil && mem.storageFlat(c16mSt(s)) && trans != nil && s.cache.comp.spec.Log2BlockSize <= 40
 //@   requires 0 <= trans.BlockSetID && trans.BlockSetID < len(s.cache.comp.State.DirectoryState.Sets) && 0 <= trans.BlockWayID && trans.BlockWayID < len(s.cache.comp.State.DirectoryState.Sets[trans.BlockSetID].Blocks)
 //@   requires 0 <= s.bankID && s.bankID < len(s.cache.comp.State.BankPostBufs)
 //@   requires c16mOff(s, trans) >= 0 && c16mOff(s, trans) + len(trans.WriteData) <= c16mBS(s)
